@@ -90,7 +90,7 @@ def eval_history(arg):
             if step > 0:
                 project.apply_edit(st, ops[step - 1])
             files = project.render(st)
-            proj.sync(files)
+            proj.sync(files, project.unlisted_paths(st))
             targets = proj.targets()
             rec = {"step": step, "op": ops[step - 1] if step else None, "problem": None}
             acc["targets"], acc["triggered"] = 0, 0
